@@ -155,3 +155,8 @@ func VerifEntries(idx VerifIndex) []VerifEntry {
 	}
 	return out
 }
+
+// VerifSaveFile / VerifLoadFile write and read the on-disk cache file of the index.
+func VerifSaveFile(idx VerifIndex, cachePath string) error { return idx.serializeToFile(cachePath) }
+
+func VerifLoadFile(cachePath string) (VerifIndex, error) { return deserializeIndexFile(cachePath) }
